@@ -29,6 +29,8 @@ structure EdgeOk (e : Edge) : Prop where
 structure InstOk (syms : List Symbol) (I : Inst) : Prop where
   unboundLe : I.unbound ≤ I.params.length
   mapDom : ∀ x, (∃ e, (x, e) ∈ I.mapping) ↔ x ∈ I.params.drop I.unbound
+  /-- one entry per key (`std::map`): together with `mapDom`, every bound parameter has exactly one argument expression -/
+  mapKeys : (I.mapping.map Prod.fst).Nodup
   arity : I.kind ≠ .proc → ∃ sym, syms[I.uid]? = some sym ∧ (sym.ty = .inst I.unbound ∨ sym.ty = .lscInst I.unbound)
 
 /-- the C08 invariant as a property of the symbol heap and the document (nothing else of the builder state matters) -/
@@ -101,8 +103,13 @@ def edgeOkB (e : Edge) : Bool :=
   (match e.dst with | some (.loc _) | none => true | _ => false) &&
   (match e.dstb with | some (.bp _) | none => true | _ => false)
 
+def distinctB : List SymId → Bool
+  | [] => true
+  | k :: ks => !ks.contains k && distinctB ks
+
 def instOkB (s : BState) (I : Inst) : Bool :=
   decide (I.unbound ≤ I.params.length) &&
+  distinctB (I.mapping.map Prod.fst) &&
   I.mapping.all (fun kv => (I.params.drop I.unbound).contains kv.1) &&
   (I.params.drop I.unbound).all (fun p => I.mapping.any (fun kv => kv.1 == p)) &&
   (I.kind == .proc ||
